@@ -357,6 +357,9 @@ class Exec(Engine):
                 return [(st, VFn(('dictmethod', v, name)))]
             if isinstance(v, VAny) and name == 'split':
                 return [(st, VFn(('external', 'regex.split')))]
+            if isinstance(v, VAny) and name in ('lower', 'upper', 'strip'):
+                # an opaque value used as a string: deterministic opaque result
+                return [(st, VFn(('anystr', v, name)))]
             if st.spec:
                 return [(st, VAny())]
             raise Unsupported('attribute %r of an opaque value' % name, node)
@@ -780,6 +783,11 @@ class Exec(Engine):
                 return z3.Exists([i], z3.And(i >= 0, i < n, z3.Select(z3.Select(a, cont.t), i) == x.t))
             if cont.elem[0] == 'str' and isinstance(x, (VStr, VCh)):
                 return self.str_in_list(st, cont, self.as_str(x))
+            if cont.elem == ('any',):
+                # opaque elements: membership by identity of the opaque ids (deterministic)
+                a = self.harr(st, self.items_key(cont.elem, 0), z3.ArraySort(IntS, IntS))
+                xt = self.flatten(st, ('any',), x)[0]
+                return z3.Exists([i], z3.And(i >= 0, i < n, z3.Select(z3.Select(a, cont.t), i) == xt))
             return fresh_bool('inlist')
         if isinstance(cont, VRec):
             if isinstance(x, VStr) and x.lit is not None:
